@@ -7,6 +7,12 @@ props = [json.loads(l) for l in open(os.path.join(ROOT, "properties.jsonl"))]
 E = "exploration"
 # id -> (category, technique, what the level gives, trusted base / assumptions)
 CHECKS = {
+ "C18": (E, "proptest + enumerated visibility contexts: introspection response rebuilt into a client schema and compared with the source schema, the SDL and execution",
+   "The standard introspection query runs on generated dynamic schemas, static Z and a visibility schema W with 15 request-data capabilities (corner contexts enumerated, random contexts beyond; all 2^15 in the thorough tier); the rebuilt client schema must be self-consistent, equal the expectation restricted to the visible elements, equal the SDL read-back, documents generated from it must execute, and no sentinel of a hidden element may occur.",
+   "Expectation tables for Z and W are hand-written SDL. Only coherent visibility configurations; unreferenced types are outside the domain; selecting hidden fields is documented as allowed."),
+ "C19": (E, "bounded-exhaustive over the 3x3 mode matrix x flavour x operation kind with proptest documents per cell (sentinel search + empty resolver log)",
+   "All 54 cells (schema mode x request mode x static/dynamic federation schema x query/mutation/subscription) each get thousands of documents mixing __schema, __type, __typename, _service, _entities and ordinary fields; disabled => no schema metadata sentinel anywhere in the response; introspection-only => resolver log empty; __typename always the right name.",
+   "Metadata recognised by sentinel names; a validation rejection of __schema under a disabled schema is allowed."),
  "C12": (E, "proptest + adversarial size families, each case on a 2 MiB-stack thread inside a child process (crash / abort / work oracle)",
    "Grammar-aware and character-level mutations of query text, 22 adversarial families at sizes up to 20k (quick) / 1M (thorough), random and forged variables (upload markers), operation names, extensions, GET query strings, JSON bodies and batches, damaged multipart bodies and websocket frames against a schema using every built-in input type; a case must return, not panic, not abort (seen through the child's exit status and a marker file) and stay under a generous checking-work bound.",
    "Stack budget 2 MiB (tokio worker default). 'No hang' is decided through the verif-hooks work counter and a parent watchdog (exit 2). Fragment fan-out is C11's subject."),
